@@ -21,6 +21,7 @@ import random
 import signal
 
 from .. import common
+from .. import shellbuild
 from .. import model as M
 
 PROP = 'C14'
@@ -374,7 +375,12 @@ def eval_lookup(case: dict, tally: 'Tally') -> dict:
     text = json.dumps(M.to_json(model))
     tally.doing = ('lookup-document-parse', {'declarations': base['decls']}, dict(case))
     with common.quiet():
-        fct = json_ast.DznJsonAst(text).process()
+        if len(text) % 3 == 0:
+            # the model comes from a parser that has just refused a faulty variant of it
+            fct = shellbuild.parse_after_refusal(text)
+            tally.count('lookup_documents_from_a_parser_reused_after_a_refusal')
+        else:
+            fct = json_ast.DznJsonAst(text).process()
     by_id, objects = index_filecontents(fct, table)
     fqn_before = {tag: list(obj.fqn.items) for tag, obj in objects.items()}
     queries, suffixes = _queries_of(case)
